@@ -952,6 +952,12 @@ pub fn main(args: &Args) -> i32 {
             Ok(r) => r,
             Err(_) => Err(Deviation::new("panic", crate::take_panic())),
         };
+        // a panic inside a background worker only shows up as `Poisoned` at the clients: report the panic itself
+        let worker_panics: Vec<String> = crate::WORKER_PANICS.lock().map(|mut g| std::mem::take(&mut *g)).unwrap_or_default();
+        let res = match res {
+            Err(d) if !worker_panics.is_empty() && !d.sig.starts_with("known:") => Err(Deviation::new("panic", worker_panics[0].clone())),
+            other => other,
+        };
         stats.merge(&hooks::counts());
         total.merge(&stats);
         total.inc("cases");
